@@ -27,6 +27,9 @@ enum Op {
     Append(u64, u64),
     /// append_entries([(index, t1), (index+1, t2)])
     Append2(u64, u64, u64),
+    /// append_entries([(index, t1), (index, t2)]), t1 != t2: one batch that names an index twice
+    /// (the second entry is an append at an index that exists by then, so it replaces the first)
+    AppendDup(u64, u64, u64),
     DeleteFrom(u64),
     Snapshot(u64, u64),
 }
@@ -79,6 +82,7 @@ fn entries_of(op: &Op) -> Vec<(u64, u64)> {
     match op {
         Op::Append(i, t) => vec![(*i, *t)],
         Op::Append2(i, t1, t2) => vec![(*i, *t1), (*i + 1, *t2)],
+        Op::AppendDup(i, t1, t2) => vec![(*i, *t1), (*i, *t2)],
         _ => vec![],
     }
 }
@@ -113,6 +117,17 @@ impl Model for M {
             }
         }
         for i in 1..=MAX_INDEX {
+            if i > snap_i && i <= last + 1 {
+                for t1 in 1..=MAX_TERM {
+                    for t2 in 1..=MAX_TERM {
+                        if t1 != t2 {
+                            v.push(Op::AppendDup(i, t1, t2));
+                        }
+                    }
+                }
+            }
+        }
+        for i in 1..=MAX_INDEX {
             v.push(Op::DeleteFrom(i));
         }
         // a snapshot at any index: above the current one, the same index again, or a stale one
@@ -129,7 +144,7 @@ impl Model for M {
         let before = st.r.clone();
         // admissible reference post-states, and the region of the case
         let (cands, region): (Vec<Ref>, &str) = match op {
-            Op::Append(..) | Op::Append2(..) => {
+            Op::Append(..) | Op::Append2(..) | Op::AppendDup(..) => {
                 let es = entries_of(op);
                 let over = before.log.iter().any(|e| e.0 >= es[0].0);
                 let mut b = before.clone();
@@ -161,7 +176,7 @@ impl Model for M {
         let res = guarded(|| {
             block(async {
                 match op {
-                    Op::Append(..) | Op::Append2(..) => s.append_entries(entries_of(op).into_iter().map(|(i, t)| entry(i, t)).collect()).await,
+                    Op::Append(..) | Op::Append2(..) | Op::AppendDup(..) => s.append_entries(entries_of(op).into_iter().map(|(i, t)| entry(i, t)).collect()).await,
                     Op::DeleteFrom(i) => s.delete_entries_from(*i).await,
                     Op::Snapshot(i, t) => s.create_snapshot(*i, *t, vec![]).await,
                 }
@@ -273,7 +288,7 @@ fn main() {
         hx::report(
             ctx,
             &stats,
-            "append_entries([(i,t)]) and append_entries([(i,t1),(i+1,t2)]) for snapshot_index < i <= last_index+1; delete_entries_from(i); create_snapshot(i,t) for i > snapshot_index; i in 1..=5, t in 1..=3",
+            "append_entries([(i,t)]) and append_entries([(i,t1),(i+1,t2)]) and append_entries([(i,t1),(i,t2)]) (t1 != t2, one batch naming an index twice) for snapshot_index < i <= last_index+1; delete_entries_from(i); create_snapshot(i,t) for i > snapshot_index; i in 1..=5, t in 1..=3",
         );
         // engine cross-check under stateright's BFS
         let c = sr::run(m.clone(), depth);
